@@ -84,8 +84,8 @@ theorem dispatch_world (ps : PS World) (hG : GoodRoot ps.w) (flush : Bool) :
 /-- non-vacuity: a registry with the bindings `a`, `a b`, and the processor waiting after `a` -/
 def exWorld : World :=
   { t := (applyROp (applyROp { regs := [.kb {}] }
-      (.add 0 [2] 0 (.b true) (.b false) (.b false))).1
-      (.add 0 [2, 3] 1 (.b true) (.b false) (.b false))).1 }
+      (.add 0 [2] 0 (.b true) (.b false) (.b false) (.b true))).1
+      (.add 0 [2, 3] 1 (.b true) (.b false) (.b false) (.b true))).1 }
 
 example : GoodRoot exWorld := ⟨_, rfl, KB.clearCache_ok _⟩
 example : (decideOf worldIface { w := exWorld, buffer := [.key 2 1] } false).2 matches .wait := by
